@@ -494,8 +494,11 @@ def finish(ctx, level="model_checking"):
         "coverage": cov, "assumptions": ctx.assumptions,
         "wall_s": round(time.time() - ctx.t0, 1), "violations": nviol,
     }
-    os.makedirs(os.path.join(VERIF, "evidence"), exist_ok=True)
-    with open(os.path.join(VERIF, "evidence", ctx.pid + ".json"), "w") as f:
+    # extension components (X..) are not properties of properties.jsonl: separate evidence directory and verdict word
+    ext = ctx.pid.startswith("X")
+    evdir = os.path.join(VERIF, "evidence", "ext") if ext else os.path.join(VERIF, "evidence")
+    os.makedirs(evdir, exist_ok=True)
+    with open(os.path.join(evdir, ctx.pid + ".json"), "w") as f:
         json.dump(ev, f, indent=1, ensure_ascii=False)
     for d in ctx.drift[:10]:
         log("DRIFT property=%s %s" % (ctx.pid, d))
@@ -505,7 +508,7 @@ def finish(ctx, level="model_checking"):
     for w, path in ctx.violations:
         if path is None:
             continue
-        log("VIOLATION property=%s replay=%s  (%s)" % (ctx.pid, path, w))
+        log(("EXT-VIOLATION component=%s replay=%s  (%s)" if ext else "VIOLATION property=%s replay=%s  (%s)") % (ctx.pid, path, w))
         shown += 1
     if nviol > shown:
         log("... and %d more violations without replay files" % (nviol - shown))
